@@ -177,6 +177,15 @@ def gen(rng, tier):
     # truncated bodies
     for n in (1, 5, 6, 50):
         cases.append(case(render(b"POST", b"/", [(b"Content-Length", b"%d" % n)], b"hello"), rng.choice(SCHEDS)))
+    # ---- (f) long field lists: the framing field behind (or before) k other fields -- a field list is read as a whole,
+    #      wherever the framing field stands (k up to what an 8 KiB head holds)
+    for k in (1, 15, 16, 17, 31, 32, 33, 63, 64, 65, 99, 100, 101, 127, 128, 129, 255, 256, 257, 511, 512, 513, 700):
+        fillers = [(b"X-%d" % (j % 50), b"%d" % j) for j in range(k)]
+        for framing, body in (([(b"Content-Length", b"5")], b"hello"), ([(b"Transfer-Encoding", b"chunked")], b"5\r\nhello\r\n0\r\n\r\n"),
+                              ([(b"Content-Length", b"5x")], b"hello"), ([(b"Content-Length", b"5"), (b"Content-Length", b"6")], b"hello"),
+                              ([(b"Transfer-Encoding", b"br")], b"hello"), ([(b"Expect", b"100-continue"), (b"Content-Length", b"5")], b"hello")):
+            for fields in (fillers + framing, framing[:1] + fillers + framing[1:], fillers[:k // 2] + framing + fillers[k // 2:]):
+                cases.append(case(render(b"POST", b"/many", fields, body) + FOLLOW[0], rng.choice([[], [8192], [3, 0, 4000]])))
     # ---- (a) cross product
     if tier == "thorough":
         for method, cl, te, ex, ct in itertools.product(METHODS, CL_CLASSES, TE_CLASSES, EXPECT_CLASSES, CT_CLASSES):
